@@ -36,9 +36,19 @@ var concTemplates = map[string]string{
 	"j.html": `J{% include 'k.html' %}{{ x }}`,
 	"k.html": `K[{{ x }}]{% include 'l.html' %}`,
 	"l.html": `{{ gate(r) }}<{{ y }}>`,
+	// one construct each, with the barrier INSIDE it: every caller is held at the same point of the same construct
+	"g_for.html":    `{% for i in [1, 2, 3] %}{% if loop.first %}{{ gate(r) }}{% endif %}{{ i }}{{ x }}{{ loop.revindex }}{% endfor %}`,
+	"g_block.html":  `{% extends 'a.html' %}{% block b %}G({{ gate(r) }}{{ parent() }}){{ x }}{% endblock %}`,
+	"g_macro.html":  `{% macro m(p, q) %}<{{ p }}{{ gate(q) }}{{ p }}>{% endmacro %}{{ _self.m(x, r) }}{{ _self.m(y, r) }}`,
+	"g_embed.html":  `{% embed 'a.html' with {x: y} %}{% block b %}{{ gate(r) }}E{{ x }}{% endblock %}{% endembed %}{{ x }}`,
+	"g_filter.html": `{% filter upper %}{{ x }}{{ gate(r) }}{{ y }}{% endfilter %}{% set c %}{{ y }}{{ gate(r) }}{{ x }}{% endset %}{{ c|raw }}`,
+	"g_expr.js":     `{{ "a#{x}#{gate(r)}b#{y}" }}{{ (x ~ gate(r) ~ y)|escape('url') }}{{ gate(r) ? x : y }}{{ [x, gate(r), y]|length }}{{ x matches '^<' ~ gate(r) }}`,
+	"g_import.html": `{% import 'f' as lib %}{% from 'f' import m %}{{ lib.m(x) }}{{ gate(r) }}{{ m(y) }}{{ x }}`,
+	"g_use.css":     `{% use 'a.html' %}{{ gate(r) }}{{ block('b') }}{{ x }}`,
 	"i.html": `{% use 'a.html' %}{% import 'f' as lib %}{{ lib.m(n) }}{{ block('b') }}{% filter upper %}{{ n }}{% endfilter %}{% verbatim %}{{ v }}{% endverbatim %}`,
 }
 
+var concGated = []string{"j.html", "g_for.html", "g_block.html", "g_macro.html", "g_embed.html", "g_filter.html", "g_expr.js", "g_import.html", "g_use.css"}
 var concNames = []string{"a.html", "b.js", "c.css", "d.txt", "e.html", "f", "bad.html", "g.js.twig", "h.html", "i.html", "u.html"}
 
 // barrier: a blocking user function used as a scheduler gate - gate(r) returns when all n callers of round r have
@@ -156,7 +166,7 @@ func init() {
 		}
 		pick := func(g, r int) (string, string) {
 			if c.Gate {
-				return "j.html", "execute"
+				return concGated[(r+c.Seed)%len(concGated)], "execute"
 			}
 			k := (g*7 + r*3 + c.Seed) % len(concNames)
 			api := "execute"
